@@ -149,6 +149,10 @@ class DavSession:
                 # so it lists no etag the resource could have (only used in If-Match)
                 vals.append("W/" + (cur or '"x"'))
                 continue
+            elif cls == "qstar":      # an entity tag whose value is an asterisk - not the wildcard
+                e = '"*"'
+            elif cls == "starin":     # an entity tag with an asterisk inside
+                e = '"rev*7"'
             elif cls == "garbage":
                 e = '"deadbeefdeadbeefdeadbeefdeadbeefdeadbeef"'
             elif cls.startswith("etag:"):
